@@ -531,6 +531,11 @@ class _FDStat:
         self.where = None
 
     def add(self, ana_u, fd_u, self_u, scale, label):
+        # the scale comes from the analytic outputs; where those are (wrongly) zero a resolved finite difference must still
+        # count, so the scale is never smaller than the finite difference itself (the self-error guard below keeps
+        # unresolved differences out) - added after a seeded change that zeroed the antisymmetric kernel's derivative at
+        # spin-unpolarised samples, where value and returned derivative both vanish
+        scale = np.maximum(scale * np.ones_like(np.asarray(fd_u, dtype=float)), np.abs(fd_u))
         err = np.abs(ana_u - fd_u) / scale
         se = self_u / scale
         ok = se <= FD_GUARD
